@@ -25,26 +25,7 @@ SPEC = {
 
 
 def degenerate_requests(ctx, n):
-    out = []
-    for _ in range(n):
-        a = ctx.rng.choice([1.0, 2.0, 3.3])
-        ub = mk_ub(lattice=(a,), rotvec=(0, 0, 0), n_hkl=None, n_phi=(0, 0, 1), surf_nphi=(0, 0, 1), surf_nhkl=None)
-        h, k = ctx.rng.uniform(0.1, 0.6), ctx.rng.uniform(0.1, 0.6)
-        x = ctx.rng.choice([0.0, 20.0, ctx.rng.uniform(-60, 60), 0.0])
-        fam = ctx.rng.choice(["v-eta", "v-free", "h-mu", "h-free", "v-delta", "h-nu"])
-        if fam == "v-eta":      # chi=0, mu=nu=0 family, eta constrained
-            out.append((ub, {"qaz": 90.0, "mu": 0.0, "eta": x}, (h, k, 0.0), 1.0, fam))
-        elif fam == "v-free":   # eta free: the tidy-up is allowed to choose it
-            out.append((ub, {"qaz": 90.0, "mu": 0.0, "a_eq_b": True}, (h, k, 0.0), 1.0, fam))
-        elif fam == "h-mu":     # chi=90, eta=delta=0 family, mu constrained
-            out.append((ub, {"qaz": 0.0, "eta": 0.0, "mu": x}, (h, k, 0.0), 1.0, fam))
-        elif fam == "h-free":
-            out.append((ub, {"qaz": 0.0, "eta": 0.0, "a_eq_b": True}, (h, k, 0.0), 1.0, fam))
-        elif fam == "v-delta":
-            out.append((ub, {"nu": 0.0, "mu": 0.0, "eta": x}, (h, k, 0.0), 1.0, fam))
-        else:
-            out.append((ub, {"delta": 0.0, "eta": 0.0, "mu": x}, (h, k, 0.0), 1.0, fam))
-    return out
+    return PL.degenerate_requests(ctx.rng, n)
 
 
 def correspondence(ctx):
